@@ -1,6 +1,7 @@
 import PlushModel
 import PlushProofs.Lib.PlainRender
 import PlushProofs.Lib.StringLit
+import PlushProofs.Lib.OutTagRender
 /-!
   C02 — output = literal text verbatim + values of `<%= %>` tags, in source order.
   Evaluator half: theorems about `compileStmts` / `evalStmtBody` (models of compiler.compile and
@@ -140,5 +141,31 @@ example : ({ LX.new #[34, 97, 92, 34, 60, 37, 35, 34, 32] with inside := true } 
         have : j < 7 := by simpa [LX.escQ] using hj
         rcases j with _|_|_|_|_|_|_|j <;> first | rfl | omega)
   exact h.1
+
+/-- **END TO END, with a tag**: for EVERY content `c` (no NUL, no backslash — quotes, `<`, `>`, `&`, `%>`, `<%`, `#`,
+    newlines, multi-byte runes all allowed) the template `<%="` + spelling of `c` + `"%>` renders, on any data, to
+    exactly what the sink writes for the Go string `c` — its HTML escape — and to nothing else: the tag delimiters,
+    the quotes and the escape backslashes contribute nothing. Lexer (three tokens: E_START, STRING `c`, E_END), parser
+    (one output statement holding the literal, no syntax error) and evaluator (literal → string value → escaped
+    chunk) are composed; nothing here is sampled. -/
+theorem C02_output_tag_with_string_end_to_end (c : Bytes) (hno : ∀ x ∈ c, x ≠ 0 ∧ x ≠ 92)
+    (data : List (Bytes × Val)) (heap : Array HeapObj) (feeder : List (Bytes × Bytes)) :
+    (renderTop (LX.outTagSrc c) data heap feeder).1 = .ok (htmlEscape c) := renderTop_outTag c hno data heap feeder
+
+/-- the same with the evaluator state: rendering it leaves contexts, heap and helper state untouched -/
+theorem C02_output_tag_no_side_effect (c : Bytes) (hno : ∀ x ∈ c, x ≠ 0 ∧ x ≠ 92) (fuel ctx : Nat) (s : ES) :
+    renderIn (fuel + 3) (LX.outTagSrc c) ctx s = (.ok (htmlEscape c), s) := render_outTag c hno fuel ctx s
+
+/-- the token stream of that template: E_START, STRING `c`, E_END, then EOF for ever -/
+theorem C02_output_tag_tokens (c : Bytes) (hno : ∀ x ∈ c, x ≠ 0 ∧ x ≠ 92) :
+    ∃ l0 l1 l2 l3,
+      tokenAt 0 (LX.new (LX.outTagSrc c).toArray) = { type := .E_START, lit := b "<%=", line := l0 } ∧
+      tokenAt 1 (LX.new (LX.outTagSrc c).toArray) = { type := .STRING, lit := c, line := l1 } ∧
+      tokenAt 2 (LX.new (LX.outTagSrc c).toArray) = { type := .E_END, lit := b "%>", line := l2 } ∧
+      ∀ k, tokenAt (k + 3) (LX.new (LX.outTagSrc c).toArray) = { type := .EOF, lit := [], line := l3 } :=
+  tokens_outTag c hno
+
+/-- non-vacuity: the template for the content `a"<b` is `<%="a\"<b"%>` -/
+example : LX.outTagSrc [97, 34, 60, 98] = [60, 37, 61, 34, 97, 92, 34, 60, 98, 34, 37, 62] := by decide
 
 end Plush
